@@ -113,7 +113,7 @@ func csvText(rows [][]string) string {
 	return b.String()
 }
 
-var c19NamePool = []string{"ek", "vm", "sd", "alice", "bob", "0", "1", "12", "-3", "0x1f", "1e5", "007", "a,b", "say \"hi\"", "ünï", "名前", " lead", "trail ", "", "multi\nline", "NaN", "from", "peer_id", "x", "y", "z", "Q", "q"}
+var c19NamePool = []string{"#tag", "# note", "ek", "vm", "sd", "alice", "bob", "0", "1", "12", "-3", "0x1f", "1e5", "007", "a,b", "say \"hi\"", "ünï", "名前", " lead", "trail ", "", "multi\nline", "NaN", "from", "peer_id", "x", "y", "z", "Q", "q"}
 
 func c19Names(r *Rng, n int) []string {
 	perm := r.Perm(len(c19NamePool))
@@ -167,7 +167,7 @@ func genC19(r *Rng, tier string) []*Case {
 		// a name that only differs from a trimmed/normalised form by blanks, used in every file
 		special := ""
 		if !raw && r.Chance(35) {
-			special = []string{" lead", "trail ", "\tTab", "  two", "a b", " "}[r.Intn(6)]
+			special = []string{" lead", "trail ", "\tTab", "  two", "a b", " ", "#first", "#"}[r.Intn(8)]
 			names[0] = special
 		}
 		id := func() string {
@@ -261,6 +261,7 @@ func genC19(r *Rng, tier string) []*Case {
 		var namesText *string
 		useNames := r.Chance(60)
 		libNames := c19Names(r, n)
+		emptyNames := useNames && r.Chance(8) // an empty peer list is still a peer list: every name is unknown
 		if useNames {
 			rows := make([][]string, len(libNames))
 			extra := r.Chance(20)
@@ -274,10 +275,16 @@ func genC19(r *Rng, tier string) []*Case {
 				rows = append(rows, rows[0]) // duplicate name
 			}
 			t := csvText(rows)
+			if emptyNames {
+				t = ""
+			}
 			namesText = &t
 			cs = append(cs, mk("LibNames", c19Lib{What: "names", Text: t}))
 		}
 		lid := func() string {
+			if emptyNames {
+				return strconv.Itoa(r.Intn(n + 3))
+			}
 			if useNames {
 				if malformed && r.Chance(6) {
 					return "nobody"
